@@ -12,7 +12,7 @@ Token grammar (everything is space separated; numbers are exact `m:e` tokens):
 * `c15.lin <lti|ltv> <periodic 0/1> T n m p hasc1 hasc2 c0 <stacked A B C D [c1] [c2]> ev…`
   ev ∈ `call <len> x… <len> u…`, `fwd <len> x… <len> u…`, `reset=…`, `assign=…`, `ref=…`
   → per event: clock, then `-` | `R` (raised) | `O x'… y…`
-* `c15.nls <aliasT 0/1> <aliasX 0/1> c0 nf ng <nf+ng trees, prefix> ev…`  (+ ev `poke <lastX|lastU|refX|refU> <len> v…`:
+* `c15.nls <aliasT 0/1> <aliasX 0/1> <partialF 0/1> c0 nf ng <nf+ng trees, prefix> ev…`  (+ ev `poke <lastX|lastU|refX|refU> <len> v…`:
   the caller overwrites that tensor in place)
   ev ∈ `call <len> x… <len> u…`, `ref <- | len x…> <- | len u…> <- | L | num>`, `reset=…`, `assign=…`, `read`
   → per event: clock, then `O f… g…` | `D` | `R` | `E` (read before any reference point) |
@@ -106,6 +106,7 @@ def multiEv (tok : String) : P (Nat × MEv) :=
     | ["afrom", j] => return (i, .assignFrom (← nat j))
     | ["rfrom", j] => return (i, .resetFrom (← nat j))
     | ["reffrom", j] => return (i, .refFrom (← nat j))
+    | ["copy", j] => return (i, .copyOf (← nat j))
     | _ => return (i, .own (← clockEv body))
   | _ => .error s!"bad-event:{tok}"
 
@@ -192,6 +193,18 @@ partial def parseNCmds (ts : List String) (acc : Array NCmd) : P (Array NCmd) :=
     | t :: rest => do let t ← num t; parseNCmds rest (acc.push (.ev (.refpoint x u (.val t))))
     | [] => .error "arity"
   | "read" :: rest => parseNCmds rest (acc.push .read)
+  | "xraise" :: rest => do
+    let (x, rest) ← takeLenVec rest
+    let (u, rest) ← takeLenVec rest
+    parseNCmds rest (acc.push (.ev (.callRaise x u)))
+  | "refraise" :: rest => do
+    let (x, rest) ← takeOptVec rest
+    let (u, rest) ← takeOptVec rest
+    match rest with
+    | "-" :: rest => parseNCmds rest (acc.push (.ev (.refRaise x u .default)))
+    | "L" :: rest => parseNCmds rest (acc.push (.ev (.refRaise x u .live)))
+    | t :: rest => do let t ← num t; parseNCmds rest (acc.push (.ev (.refRaise x u (.val t))))
+    | [] => .error "arity"
   | "poke" :: tgt :: rest => do
     let tgt ← match tgt with
       | "lastX" => pure PokeTgt.lastX | "lastU" => pure PokeTgt.lastU
@@ -212,12 +225,12 @@ def fmtLinear (x u : DVec BigF) (L : Lin BigF) : String :=
   s!"L {x.length} {u.length} " ++
     fmt (L.A.flatten ++ L.B.flatten ++ L.C.flatten ++ L.D.flatten ++ L.c1 ++ L.c2)
 
-def runNCmds (aliasT aliasX : Bool) (fs gs : List Fn) (S0 : NState BigF) (cmds : List NCmd) : List String :=
+def runNCmds (aliasT aliasX partialF : Bool) (fs gs : List Fn) (S0 : NState BigF) (cmds : List NCmd) : List String :=
   (cmds.foldl (fun (acc : NState BigF × List String) c =>
     let (S, out) := acc
     match c with
     | .ev e =>
-      let (S', o) := stepN aliasT aliasX fs gs S e
+      let (S', o) := stepN aliasT aliasX partialF fs gs S e
       let tail := match o with
         | .outputs f g => "O " ++ fmt (f ++ g)
         | .done => "D"
@@ -266,12 +279,12 @@ def opsC15 : List (String × Handler) := [
       | _ => throw "arity"),
   ("c15.nls", fun ts => do
       match ts with
-      | al :: ax :: c0 :: nf :: ng :: rest =>
-        let al ← nat al; let ax ← nat ax; let c0 ← int c0; let nf ← nat nf; let ng ← nat ng
+      | al :: ax :: pf :: c0 :: nf :: ng :: rest =>
+        let al ← nat al; let ax ← nat ax; let pf ← nat pf; let c0 ← int c0; let nf ← nat nf; let ng ← nat ng
         let (fs, rest) ← parseFns nf rest
         let (gs, rest) ← parseFns ng rest
         let cmds := (← parseNCmds rest #[]).toList
-        return " ".intercalate (runNCmds (al == 1) (ax == 1) fs gs (NState.init c0) cmds)
+        return " ".intercalate (runNCmds (al == 1) (ax == 1) (pf == 1) fs gs (NState.init c0) cmds)
       | _ => throw "arity"),
   ("c15.bmv", fun ts => do
       match ts with
